@@ -35,6 +35,24 @@ def gen_case(rng, cfg, idx):
             if c is not None:
                 return {"kind": "iter", "prog": c["prog"], "L": c["L"], "k": rng.randint(2, 5), "kseed": rng.randrange(1 << 30)}
         return None
+    if r == 1 and idx % 9 == 1:
+        # a functional history (views and reads only) in which the user then attempts in-place updates that NumPy rejects - wrong shapes, or an
+        # index out of bounds (IndexError) - catches the error and carries on to the read-out: everything must be released as if the attempt had
+        # not been made (the model-upstream monitor covers every tensor of such a history)
+        from mgverif.gen.inplace import gen_history, add_readout, s_bad, members
+        for _ in range(10):
+            b, base, _n = gen_history(rng, nstmts=cfg["nstmts"], int_prob=0.0, nonconst_only=True, inplace_w=0, setshape_w=0, view_w=5, read_w=4)
+            mem = members(b)
+            made = 0
+            for _k in range(rng.randint(1, 3)):
+                if mem and s_bad(b, rng.choice(mem), kind="index" if rng.random() < 0.6 else None):
+                    made += 1
+            L = add_readout(b, rng)
+            if L is None or not made:
+                continue
+            b.prog.append({"k": "backward", "tgt": L, "seed": None})
+            return {"kind": "hist", "prog": b.prog, "L": L, "kseed": rng.randrange(1 << 30), "failed_writes": made}
+        return None
     if r == 1:
         c = C05.gen_case(rng, {"nstmts": cfg["nstmts"], "two_epoch": "random", "bad_w": 0.4}, idx)
         if c is None:
@@ -152,6 +170,49 @@ def run_iter(case, cnt, viol, sets):
     return nup
 
 
+def model_upstream(prog, env):
+    """Names of non-constant tensors that the program's dataflow puts upstream of the tensor back-propagated by the last statement, restricted to
+    single-epoch histories and to memory families that no *successful* in-place statement ever wrote (after such a statement the public tensor
+    legitimately is a new node of the graph, with a creator, while its former self lives on as an internal copy)."""
+    from mgverif.oracle import Shadow
+    if any(st["k"] in ("sever",) for st in prog) or sum(1 for st in prog if st["k"] in ("backward", "clear")) != 1:
+        return []
+    try:
+        sh = Shadow(prog).run_all()
+    except Exception:
+        return []
+    if sh.raised:
+        return []
+    touched = set()
+    for st in prog:
+        if st.get("expect_raise"):
+            continue
+        tg = st.get("tgt") if st["k"] in ("setitem", "aug", "uout", "setshape") else None
+        if st["k"] == "call" and isinstance(st.get("kw", {}).get("out"), list):
+            tg = st["kw"]["out"][1] if st["kw"]["out"][:1] == ["r"] else "?"
+        if tg is not None:
+            touched.add(sh.owner.get(tg, tg))
+    if "?" in touched:
+        return []
+    ok = lambda n: mgrun.is_tensor(env.get(n)) and not env[n].constant
+    U = {prog[-1]["tgt"]}
+    for st in reversed(prog[:-1]):
+        if st.get("expect_raise"):
+            continue
+        if st["k"] == "call" and st.get("out") in U and ok(st["out"]) and sh.owner.get(st["out"], st["out"]) not in touched:
+            # (a tensor whose memory was written in place no longer is what its defining call made it: the closure stops there)
+            # operands in differentiable positions only: top-level positional tensors (an index, mask or condition is data to the graph)
+            args = list(st.get("a", []))
+            if st["fn"] == "where":
+                args = args[1:]
+            elif st["fn"] in ("getitem", "take_along_axis", "put_along_axis"):
+                args = args[:1]
+            U.update(a[1] for a in args if isinstance(a, list) and len(a) == 2 and a[0] == "r" and ok(a[1]))
+        elif st["k"] == "alias" and st.get("out") in U:
+            U.add(st["src"])
+    return sorted(n for n in U if ok(n) and sh.owner.get(n, n) not in touched)
+
+
 def run_hist(case, cnt, viol, sets):
     prog = case["prog"]
     while prog and prog[-1]["k"] != "backward":
@@ -168,11 +229,28 @@ def run_hist(case, cnt, viol, sets):
             it.exec(i_, st_)
     L = it.env[prog[-1]["tgt"]]
     cnt["hist_epochs"] = cnt.get("hist_epochs", 0) + sum(1 for st in prog if st["k"] == "backward")
+    if case.get("failed_writes"):
+        cnt["hist_failed_write_cases"] = cnt.get("hist_failed_write_cases", 0) + 1
     pre = upstream_tensors(L)
     nup = len(pre)
+    model_up = model_upstream(prog, it.env)
     L.backward()
     graphstate(pre, cnt, viol, "history")
     del pre, L
+    # the tensors the USER holds that the program's own dataflow puts upstream of L (not the library's idea of the graph, which a botched
+    # in-place bookkeeping may have re-routed to internal copies): released as well
+    for n in model_up:
+        t = it.env.get(n)
+        if t is None:
+            continue
+        cnt["model_upstream_checks"] = cnt.get("model_upstream_checks", 0) + 1
+        if t.creator is not None or any(r() is not None for r in t._ops):
+            viol.append({"monitor": "M-graphstate", "mech": "model-upstream-not-released",
+                         "msg": f"history: {n} is upstream of the back-propagated tensor by the program's dataflow (and its memory was never updated in place) but "
+                                f"keeps creator={type(t.creator).__name__ if t.creator is not None else None}, live consumers={sum(1 for r in t._ops if r() is not None)}"})
+            del t
+            break
+        del t
     rng = random.Random(case["kseed"])
     names = list(it.env)
     for n in names:
